@@ -13,10 +13,12 @@ Section AF.
     take_lang FO x l = Some (r, l') -> Permutation l ((x, r) :: l').
   Proof.
     induction l as [|[n s] rest IH]; intros l' r H; cbn [take_lang] in H; [discriminate|].
-    destruct (String.eqb n x) eqn:E.
-    - inversion H; subst. apply String.eqb_eq in E. subst n. apply Permutation_refl.
-    - destruct (take_lang FO x rest) as [[r' rest']|] eqn:Ht; [|discriminate]. inversion H; subst.
-      specialize (IH _ _ eq_refl). eapply perm_trans; [apply perm_skip; exact IH | apply perm_swap].
+    destruct (take_lang FO x rest) as [[r' rest']|] eqn:Ht.
+    - destruct (String.eqb n x && oge FO s r') eqn:E.
+      + inversion H; subst. apply andb_true_iff in E as [E _]. apply String.eqb_eq in E. subst n. apply Permutation_refl.
+      + inversion H; subst. specialize (IH _ _ eq_refl). eapply perm_trans; [apply perm_skip; exact IH | apply perm_swap].
+    - destruct (String.eqb n x) eqn:E; [|discriminate].
+      inversion H; subst. apply String.eqb_eq in E. subst n. apply Permutation_refl.
   Qed.
 
   Theorem alph_check_from_perm : forall answer prev cands,
